@@ -334,3 +334,25 @@ MANIFEST_TEXT["C12"] = dict(
     technique="differential property-based testing (rapid) of GSAP against a brute-force longest-previous-match oracle",
     level="Generated-history exploration with an exact oracle for match lengths and for literals (when the buffer fits the window).",
     note=NOTE_PBT)
+
+CHECKS["C13"] = dict(
+    {"quick": {"tests": [{"test": "TestC13", "checks": 1500, "subchecks": KINDS7},
+                         {"test": "TestC13Conc", "checks": 150, "subchecks": 1, "race": True}]},
+     "thorough": {"shards": 16, "tests": [{"test": "TestC13", "checks": 4000, "subchecks": KINDS7},
+                                          {"test": "TestC13Conc", "checks": 400, "subchecks": 1, "race": True}]}},
+    replay_race=True,
+    rule=("(1) for each of the 7 kinds: a prior history H1 (any ops, 0..4 fills), then Reset(nil) or Reset(data, spare "
+          "capacity), then H2 (any ops incl. ReadAt/ByteAt/Parse(nil)); the twin is a new parser of the same configuration "
+          "given the same Reset call and H2; everything H2 returns (n, error identity, sequences, literals, Shrink results, "
+          "bytes read) must be equal. (2) the whole history on a second new parser (determinism). (3) schedules: 4..16 "
+          "goroutines, each running its own parser or decoder history (equal configurations in several goroutines have "
+          "mass), 3 rounds, binary built with -race and GORACE=halt_on_error=1; results compared with the sequential run. "
+          "Non-trivial: (1) H1 parsed >= 1 block with a match (GSAP/OSAP: and rebuilt its structures) and H2 emits >= 1 "
+          "match; (3) >= 3 parser instances of >= 2 kinds with matches."),
+    assumptions=ASSUME_COMMON + ["the Go race detector reports unsynchronised shared state on the sampled schedules; the harness does not own the scheduler, schedules are sampled not enumerated"],
+)
+MANIFEST_TEXT["C13"] = dict(
+    engine="parser-history",
+    technique="differential property-based testing (used-then-Reset parser vs new parser; two new parsers) plus concurrent execution of independent instances under the Go race detector",
+    level="Generated-history exploration; the schedule quantifier is sampled (goroutines x race detector), which finds shared mutable state reliably but enumerates no schedules.",
+    note=NOTE_PBT)
